@@ -9,7 +9,8 @@ from .. import impl
 
 # package-declared names used in the menu
 PKG_DECL = {'\\textcolor': 'xcolor', 'proof': 'amsthm', '\\gls': 'glossaries', '\\text': 'amsmath', 'tikzpicture': 'tikz',
-            '\\includegraphics': 'graphicx', 'otherlanguage': 'babel', '\\foreignlanguage': 'babel'}
+            '\\includegraphics': 'graphicx', 'otherlanguage': 'babel', '\\foreignlanguage': 'babel',
+            '\\gls@defglossaryentry': 'glossaries', '\\GLS': 'glossaries', '\\Gls': 'glossaries'}
 # packages that load other packages
 REQUIRES = {'pgfplots': ['graphicx', 'tikz']}
 
@@ -61,6 +62,9 @@ ITEMS = [
     ('\\usepackage[german]{babel}', [('load', 'babel')]),
     ('\\begin{otherlanguage}{german}Wo\\end{otherlanguage} Wp', [('use', 'otherlanguage')]),
     ('\\foreignlanguage{german}{Wf}', [('use', '\\foreignlanguage')]),
+    # a glossary entry whose text contains a declared macro, used through the capitalising macros
+    ('\\gls@defglossaryentry{kg}{name={Gn},text={gt \\LaTeX{} gu},description={gd}}', [('use', '\\gls@defglossaryentry')]),
+    ('\\GLS{kg} \\Gls{kg}', [('use', '\\GLS'), ('use', '\\Gls')]),
 ]
 # phrase replacements must not touch the list of names
 REPL = ['\\ua & \\replaced\n', 'ux & uy\n', '\\ub \\uc & \n']
